@@ -147,19 +147,30 @@ func (aux *Aux) LoadForm() slip.Object {
 	sort.Strings(keys)
 	for _, k := range keys {
 		method := aux.methods[k]
-		sll := make(slip.List, len(method.Doc.Args))
-		for i, da := range method.Doc.Args {
-			if i < aux.reqCnt && 0 < len(da.Type) {
-				sll[i] = slip.List{slip.Symbol(da.Name), slip.Symbol(da.Type)}
-			} else if i < aux.reqCnt {
-				sll[i] = slip.Symbol(da.Name)
-			} else {
-				if da.Name[0] == '&' || da.Default == nil {
-					sll[i] = slip.Symbol(da.Name)
+		// The lambda list of each method is its own, a qualifier method may
+		// name its parameters differently than the primary method does.
+		lambdaList := func(lam *slip.Lambda) slip.List {
+			args := method.Doc.Args
+			own := lam.Doc != nil && len(lam.Doc.Args) == len(args)
+			sll := make(slip.List, len(args))
+			for i, da := range args {
+				name, def := da.Name, da.Default
+				if own {
+					name, def = lam.Doc.Args[i].Name, lam.Doc.Args[i].Default
+				}
+				if i < aux.reqCnt && 0 < len(da.Type) {
+					sll[i] = slip.List{slip.Symbol(name), slip.Symbol(da.Type)}
+				} else if i < aux.reqCnt {
+					sll[i] = slip.Symbol(name)
 				} else {
-					sll[i] = slip.List{slip.Symbol(da.Name), da.Default}
+					if name[0] == '&' || def == nil {
+						sll[i] = slip.Symbol(name)
+					} else {
+						sll[i] = slip.List{slip.Symbol(name), def}
+					}
 				}
 			}
+			return sll
 		}
 		var doc slip.Object
 		if 0 < len(aux.docs.Text) {
@@ -170,7 +181,7 @@ func (aux *Aux) LoadForm() slip.Object {
 		}
 		if 0 < len(method.Combinations) {
 			if lam, ok := method.Combinations[0].Primary.(*slip.Lambda); ok {
-				mdef := slip.List{slip.Symbol(":method"), sll}
+				mdef := slip.List{slip.Symbol(":method"), lambdaList(lam)}
 				if doc != nil {
 					mdef = append(mdef, doc)
 				}
@@ -178,7 +189,7 @@ func (aux *Aux) LoadForm() slip.Object {
 				gdef = append(gdef, mdef)
 			}
 			if lam, ok := method.Combinations[0].Before.(*slip.Lambda); ok {
-				mdef := slip.List{slip.Symbol(":method"), slip.Symbol(":before"), sll}
+				mdef := slip.List{slip.Symbol(":method"), slip.Symbol(":before"), lambdaList(lam)}
 				if doc != nil {
 					mdef = append(mdef, doc)
 				}
@@ -186,7 +197,7 @@ func (aux *Aux) LoadForm() slip.Object {
 				gdef = append(gdef, mdef)
 			}
 			if lam, ok := method.Combinations[0].After.(*slip.Lambda); ok {
-				mdef := slip.List{slip.Symbol(":method"), slip.Symbol(":after"), sll}
+				mdef := slip.List{slip.Symbol(":method"), slip.Symbol(":after"), lambdaList(lam)}
 				if doc != nil {
 					mdef = append(mdef, doc)
 				}
@@ -194,7 +205,7 @@ func (aux *Aux) LoadForm() slip.Object {
 				gdef = append(gdef, mdef)
 			}
 			if lam, ok := method.Combinations[0].Wrap.(*slip.Lambda); ok {
-				mdef := slip.List{slip.Symbol(":method"), slip.Symbol(":around"), sll}
+				mdef := slip.List{slip.Symbol(":method"), slip.Symbol(":around"), lambdaList(lam)}
 				if doc != nil {
 					mdef = append(mdef, doc)
 				}
